@@ -12,7 +12,8 @@ Export direction: parts built from abstract documents -> save_mei / save_kern ->
 Re-export direction: document -> load_score -> save_mei / save_kern of every loaded part -> reload.
 Further streams evaluated in Coq: the MEI traversal in ticks (Model/C19_mei.v), the kern timeline placement with the
 shared line table (Model/C19_kern.v part 3), single kern tokens probed through load_kern and tokens written by
-save_kern (Model/C19_kern.v parts 1, 2), dispatch by extension on generated file names (Model/C19_disp.v).
+save_kern (Model/C19_kern.v parts 1, 2), dispatch by extension on generated file names (Model/C19_disp.v), MEI attribute
+probes on single notes / chord members and on probe layers (Model/C19_attr.v; tables reflected into Gen/C19_tables.v by gen()).
 """
 import json
 import math
@@ -2157,6 +2158,34 @@ def register_matchers(ctx):
 
 
 def gen():
+    """Reflect the three constant tables the MEI loader decodes attributes with (as importmei sees them) into
+    coq/Gen/C19_tables.v: Model/C19_attr.v looks values up in them, Proofs/C19_attr.v re-proves the table theorems
+    on them at every run."""
+    import importlib
+    mod = importlib.import_module("partitura.io.importmei")
+
+    def table(name):
+        t = getattr(mod, name, None)
+        if t is None:
+            import partitura.utils.globals as g_
+            t = getattr(g_, name)
+        return t
+    L = ["(* GENERATED by harness/props/c19.py gen() from the live partitura.io.importmei namespace -- do not edit *)",
+         "From Coq Require Import ZArith QArith List String.", "Import ListNotations.", "Open Scope Z_scope.", ""]
+
+    def ok_str(x):
+        return isinstance(x, str) and all(32 <= ord(c) < 127 for c in x)
+    m2s = [(k, v) for k, v in table("MEI_DURS_TO_SYMBOLIC").items() if ok_str(k) and ok_str(v)]
+    L.append("Definition mei_durs_to_symbolic : list (string * string) := %s." % core.clist(
+        [core.ctuple([core.cstr(k), core.cstr(v)]) for k, v in m2s]))
+    s2i = [(k, Fraction(v).limit_denominator(1 << 20)) for k, v in table("SYMBOLIC_TO_INT_DURS").items()
+           if ok_str(k) and isinstance(v, (int, float)) and not isinstance(v, bool)]
+    L.append("Definition symbolic_to_int_durs : list (string * Q) := %s." % core.clist(
+        [core.ctuple([core.cstr(k), core.cq(v)]) for k, v in s2i]))
+    s2a = [(k, v) for k, v in table("SIGN_TO_ALTER").items() if ok_str(k) and (v is None or (isinstance(v, int) and not isinstance(v, bool)))]
+    L.append("Definition sign_to_alter : list (string * option Z) := %s." % core.clist(
+        [core.ctuple([core.cstr(k), core.copt(v, core.cz)]) for k, v in s2a]))
+    core.write_gen("C19_tables", "\n".join(L) + "\n")
     return None
 
 
@@ -2189,7 +2218,12 @@ def run(ctx):
                 "probed through load_kern in a file of its own; tokens save_kern writes for notes of drawn attributes.  "
                 "DISPATCH: file names drawn from a grammar (0-2 directories with dots / other readers' extensions, hidden names, only dots, "
                 "several dots, upper-case extensions, unknown extensions), the reader observed by its outcome on an MEI and a kern file of "
-                "known content written under the name.")
+                "known content written under the name.  "
+                "ATTRIBUTE PROBES: MEI layers of 10 probes (a note or a chord of 2-3 members; @dur long..256, @dots absent/0-3, 0-3 beams with "
+                "a tuplet at a random place of the chain, @grace, @dur.ppq, @staff on note / chord / member, the accidental written at 0-4 of "
+                "@accid / @accid.ges / <accid> child @accid / @accid.ges, an <artic> before the child, spaces between probes) + single-probe "
+                "documents of error classes; every loaded note compared with what its attributes denote and with Model/C19_attr.v; "
+                "distinct non-trivial = distinct probe text.")
     ctx.trusted = ["Coq 8.16.1 kernel incl. vm_compute",
                    "harness/props/c19.py: generator, the independent MEI/kern writers, denotation transcription (oracle), observer, "
                    "the part builder of the export direction and its lxml reading of @staff in exported files, the reading of a written "
@@ -2207,7 +2241,8 @@ def run(ctx):
                        "both writers take the written value from it",
                        "dispatch: which of the OTHER readers runs for a name, or none, is not compared (classes 0 and 3 are merged)"]
     register_matchers(ctx)
-    ok, why = ctx.coq_props(expect_min=52)
+    gen()
+    ok, why = ctx.coq_props(expect_min=66)
     quick = ctx.tier == "quick"
     n_docs = {"mei": 100 if quick else 2600, "kern": 100 if quick else 2600}
     n_exp = {"mei": 60 if quick else 1500, "kern": 26 if quick else 550}   # save_kern is ~5x slower than save_mei
@@ -2374,6 +2409,7 @@ def run(ctx):
     ctx.log("import correspondence evaluated in Coq")
     run_export(ctx, n_exp, ok)
     ctx.log("export direction done")
+    run_attr(ctx, 40 if quick else 900, ok)
     run_reexport(ctx, {"mei": 35 if quick else 600, "kern": 14 if quick else 170})
     ctx.log("re-export direction done")
     run_tokens(ctx, [t for d_, l_, t in coq_docs if d_["fmt"] == "kern"], 350 if quick else 4500, 90 if quick else 2000, ok)
@@ -3362,6 +3398,370 @@ def run_token_histories(ctx, n, ok):
                           dict(infos[i], clauses=["model", "history"]))
 
 
+# --------------------------------------------------------------------------
+# attribute probes (round j): single MEI notes / chord members whose attributes, children and ancestors are drawn from
+# a grammar, loaded through load_mei / load_score, each loaded note compared (a) with what its attributes denote
+# (oracle) and (b) with Model/C19_attr.v handle_note evaluated in Coq on the same element (check_attr)
+
+ATTR_PPQ = 430080   # 2^12 * 3 * 5 * 7: every drawn value x dots x ratio is a whole number of divisions
+ATTR_DURS = ["long", "breve", "1", "2", "4", "4", "8", "8", "16", "16", "32", "64", "128", "256"]
+ATTR_DUR_Q = {"long": F(1, 4), "breve": F(1, 2), "0": F(1, 2)}
+ATTR_RATIOS = [(3, 2), (3, 2), (5, 4), (6, 4), (7, 4), (7, 8), (2, 3), (5, 2)]
+ATTR_ACC = {"s": 1, "f": -1, "ss": 2, "x": 2, "ff": -2, "n": 0, "ns": 1, "nf": -1}
+ATTR_HEAD = ('<?xml version="1.0" encoding="UTF-8"?>\n<mei xmlns="http://www.music-encoding.org/ns/mei" meiversion="4.0.0"><meiHead><fileDesc>'
+             '<titleStmt><title>p</title></titleStmt><pubStmt/></fileDesc></meiHead><music><body><mdiv xml:id="m"><score xml:id="s"><scoreDef xml:id="sd">'
+             '<staffGrp xml:id="sg"><staffDef xml:id="P1" n="1" lines="5" ppq="%d" clef.shape="G" clef.line="2" meter.count="4" meter.unit="4" key.sig="0"/>'
+             '</staffGrp></scoreDef><section xml:id="sec"><measure xml:id="m1" n="1"><staff xml:id="st" n="1"><layer xml:id="l" n="1">')
+ATTR_TAIL = '</layer></staff></measure></section></score></mdiv></body></music></mei>\n'
+ATTR_OUTER = [("layer", [("n", "1")]), ("staff", [("n", "1")]), ("measure", [("n", "1")]), ("section", [])]
+
+
+def gen_attr_probe(rng, pi, error=None):
+    """One probe: {'chord': node or None, 'notes': [note nodes with children], 'chain': containers from the element
+    outwards, 'feat': [...]}.  A node is [tag, [(attribute, value)...], [child nodes]] (xml:id kept apart)."""
+    feat = []
+    is_chord = error is None and rng.random() < 0.3
+    dur = rng.choice(ATTR_DURS)
+    carrier = [("dur", dur)]
+    r = rng.random()
+    if r < 0.5:
+        dots = rng.choice(["0", "1", "1", "2", "2", "3"])
+        carrier.append(("dots", dots))
+        feat.append("dots=%s" % dots)
+    else:
+        feat.append("dots:absent")
+    feat.append("dur=%s" % dur)
+    # containers from the element outwards
+    chain = [("beam", [])] * rng.choice([0, 0, 1, 1, 2, 3])
+    ntup = 2 if error == "nested_tuplets" else (1 if rng.random() < 0.55 else 0)
+    for _ in range(ntup):
+        a, b = rng.choice(ATTR_RATIOS)
+        chain = list(chain)
+        chain.insert(rng.randint(0, len(chain)), ("tuplet", [("num", str(a)), ("numbase", str(b))]))
+    if ntup == 1:
+        depth = [t for t, _ in chain].index("tuplet")
+        feat.append("tuplet:behind_%s_containers" % ("0" if depth == 0 else "1" if depth == 1 else "2+"))
+        if depth < len(chain) - 1:
+            feat.append("tuplet:inside_a_beam")
+    elif ntup == 0:
+        feat.append("tuplet:none")
+    if error is None and not is_chord and rng.random() < 0.2:
+        g = rng.choice(["acc", "unacc", "unknown"])
+        carrier.append(("grace", g))
+        feat.append("grace=%s" % g)
+    if error is None and rng.random() < 0.15:
+        carrier.append(("dur.ppq", str(rng.choice([1, 7, 480, 999, 4321]))))
+        feat.append("dur.ppq")
+    if error == "unknown_dur":
+        carrier[0] = ("dur", rng.choice(["3", "quarter", "512"]))
+    if error == "bad_dots":
+        carrier.append(("dots", "x"))
+    if rng.random() < 0.2:
+        carrier.append(("staff", str(rng.choice([1, 2, 3]))))
+        feat.append("staff_on_%s" % ("chord" if is_chord else "note"))
+    notes = []
+    nfeat = []
+    strict = []
+    cfeat = feat
+    for k in range(rng.choice([2, 3]) if is_chord else 1):
+        feat = []
+        nfeat.append(feat)
+        na = [("pname", rng.choice("cdefgab")), ("oct", str(rng.randint(0, 8)))]
+        children = []
+        r = rng.random()
+        places = []
+        if r < 0.25:
+            places = []
+        elif r < 0.75:
+            places = [rng.choice(["accid", "accid.ges", "child:accid", "child:accid.ges"])]
+        else:
+            places = sorted(rng.sample(["accid", "accid.ges", "child:accid", "child:accid.ges"], rng.choice([2, 2, 3, 4])))
+        agree = rng.random() < 0.8
+        sign = rng.choice(sorted(ATTR_ACC))
+        child_attrs = []
+        for pl in places:
+            sg = sign if agree else rng.choice(sorted(ATTR_ACC))
+            if error == "unknown_accid":
+                sg = "su"
+            (child_attrs if pl.startswith("child:") else na).append((pl.split(":")[-1], sg))
+        rng.shuffle(na)
+        if rng.random() < 0.4:
+            children.append(["artic", [("artic", "stacc")], []])
+            if child_attrs:
+                feat.append("accid_child_after_another_child")
+        if child_attrs or error == "empty_accid_child":
+            children.append(["accid", child_attrs, []])
+            if rng.random() < 0.2:
+                children.append(["accid", [("accid", sign if agree else rng.choice(sorted(ATTR_ACC)))], []])
+                feat.append("second_accid_child")
+                if not child_attrs:
+                    places = places + ["child:none"]
+        if error == "no_oct":
+            na = [x for x in na if x[0] != "oct"]
+        feat.append("accid_places:%s" % ("+".join(places) if places else "none"))
+        if len(places) > 1:
+            feat.append("accid_places_%s" % ("agree" if agree else "conflict"))
+        # judged: documents of the supported subset (no error class; the places an accidental is written at agree)
+        strict.append(error is None and (agree or len(places) <= 1))
+        if is_chord and rng.random() < 0.25:
+            na.append(("staff", str(rng.choice([1, 2, 3]))))
+            feat.append("staff_on_chord_member")
+        if is_chord:
+            feat.append("chord_member")
+        notes.append(["note", na, children])
+    feat = cfeat
+    if error:
+        feat.append("error:%s" % error)
+    return {"nfeat": nfeat, "strict": strict, "chord": ["chord", carrier, []] if is_chord else None, "notes": notes if is_chord else [["note", carrier + notes[0][1], notes[0][2]]],
+            "chain": chain, "feat": feat, "pi": pi}
+
+
+def attr_probe_xml(pr):
+    """-> (xml of the probe with its containers, ids of the notes)."""
+    ids = []
+
+    def node_xml(nd, i):
+        tag, at, ch = nd
+        return '<%s xml:id="%s"%s>%s</%s>' % (tag, i, "".join(' %s="%s"' % kv for kv in at),
+                                               "".join(node_xml(c, "%sc%d" % (i, j)) for j, c in enumerate(ch)), tag)
+    inner = []
+    for k, n in enumerate(pr["notes"]):
+        ids.append("p%dn%d" % (pr["pi"], k))
+        inner.append(node_xml(n, ids[-1]))
+    x = "".join(inner)
+    if pr["chord"]:
+        x = '<chord xml:id="p%dch"%s>%s</chord>' % (pr["pi"], "".join(' %s="%s"' % kv for kv in pr["chord"][1]), x)
+    for j, (tag, at) in enumerate(pr["chain"]):
+        x = '<%s xml:id="p%dk%d"%s>%s</%s>' % (tag, pr["pi"], j, "".join(' %s="%s"' % kv for kv in at), x, tag)
+    return x, ids
+
+
+def observe_attr_doc(text, ids, loader, name):
+    """-> {id: [step, octave, alter, ticks, type, dots, (actual, normal), staff, grace type]} or None when the loader raised."""
+    import partitura as pt
+    from partitura import score as S
+    path = os.path.join(work_dir(), name + ".mei")
+    with open(path, "w") as f:
+        f.write(text)
+    try:
+        sc = pt.load_score(path) if loader == "load_score" else pt.load_mei(path)
+    except Exception as ex:
+        return None, "%s: %s" % (type(ex).__name__, str(ex)[:120])
+    out = {}
+    divs = None
+    for part in sc.parts:
+        divs = int(part.quarter_duration_map(0))
+        for n in part.iter_all(S.Note, include_subclasses=True):
+            if n.id in ids:
+                sd = n.symbolic_duration or {}
+                tup = None
+                if sd.get("actual_notes") is not None or sd.get("normal_notes") is not None:
+                    tup = [int(sd.get("actual_notes")), int(sd.get("normal_notes"))]
+                out[n.id] = [str(n.step), int(n.octave), None if n.alter is None else int(n.alter), int(n.end.t - n.start.t),
+                             str(sd.get("type")), None if sd.get("dots") is None else int(sd.get("dots")), tup,
+                             int(n.staff), getattr(n, "grace_type", None) if isinstance(n, S.GraceNote) else None, int(n.start.t)]
+    return out, divs
+
+
+def c_node(nd):
+    return '(Nd %s %s)' % (core.cstr(nd[0]), clist([ctuple([core.cstr(k), core.cstr(v)]) for k, v in nd[1]]))
+
+
+def c_attr_case(pr, k, divs, obs):
+    chain = [(t, a) for t, a in pr["chain"]] + ATTR_OUTER
+    anc_nodes = [c_node([t, a]) for t, a in chain]
+    note = pr["notes"][k]
+    if pr["chord"]:
+        ch = "(Some (El %s %s %s))" % (c_node(pr["chord"]), clist([c_node(n) for n in pr["notes"]]), clist(anc_nodes))
+        ne = "(El %s %s %s)" % (c_node(note), clist([c_node(c) for c in note[2]]), clist([c_node(pr["chord"])] + anc_nodes))
+    else:
+        ch = "None"
+        ne = "(El %s %s %s)" % (c_node(note), clist([c_node(c) for c in note[2]]), clist(anc_nodes))
+    if obs is None:
+        ob = "None"
+    else:
+        st, oc, al, tk, ty, dots, tup, staff, gt = obs[:9]
+        ob = "(Some (Dec %s %s %s %s (SD %s %s %s) %s %s))" % (
+            core.cstr(st), cz(oc), core.copt(al, cz), cz(tk), core.cstr(ty), core.copt(dots, cz),
+            core.copt(tup, lambda t: ctuple([cz(t[0]), cz(t[1])])), cz(staff), core.copt(gt, core.cstr))
+    return ctuple([cz(divs), cz(1), ch, ne, ob])
+
+
+def attr_expected(pr, k):
+    """What the attributes of probe note k denote, clause by clause (None = the clause is not judged: conflicting
+    accidental places; a duration given by @dur.ppq is taken as declared)."""
+    note = pr["notes"][k]
+    carrier = dict((pr["chord"] or note)[1])
+    na = dict(note[1])
+    exp = {"step": na["pname"].upper(), "octave": int(na["oct"])}
+    src = [v for kk, v in note[1] if kk in ("accid", "accid.ges")]
+    acc_children = [c for c in note[2] if c[0] == "accid"]
+    if acc_children:
+        src += [v for kk, v in acc_children[0][1]]
+    if not src:
+        exp["alter"] = (None,)
+    elif len(set(src)) == 1:
+        exp["alter"] = (ATTR_ACC[src[0]],)
+    tups = [a for t, a in pr["chain"] if t == "tuplet"]
+    ratio = (int(dict(tups[0])["num"]), int(dict(tups[0])["numbase"])) if tups else None
+    exp["ratio"] = ratio
+    v = ATTR_DUR_Q.get(carrier["dur"]) or F(int(carrier["dur"]))
+    dots = int(carrier.get("dots", 0))
+    if "grace" in carrier:
+        exp["quarters"] = F(0)
+    elif "dur.ppq" in carrier:
+        exp["ticks"] = int(carrier["dur.ppq"])
+    else:
+        exp["quarters"] = F(4) / v * (2 - F(1, 2 ** dots)) * (F(ratio[1], ratio[0]) if ratio else 1)
+    exp["written"] = (v, dots)
+    exp["staff"] = int(na["staff"]) if ("staff" in na and pr["chord"]) else int(carrier.get("staff", 1))
+    exp["grace"] = {"acc": "appoggiatura", "unacc": "acciaccatura"}.get(carrier["grace"], "grace") if "grace" in carrier else None
+    return exp
+
+
+def attr_oracle(pr, k, divs, ob):
+    exp = attr_expected(pr, k)
+    st, oc, al, tk, ty, dots, tup, staff, gt = ob[:9]
+    bad = []
+    if st.upper() != exp["step"] or oc != exp["octave"]:
+        bad.append("pitch: step/octave %s%d, written %s%d" % (st, oc, exp["step"], exp["octave"]))
+    if "alter" in exp and al != exp["alter"][0]:
+        bad.append("pitch: alter %r, the accidental written denotes %r" % (al, exp["alter"][0]))
+    if "quarters" in exp and F(tk, divs) != exp["quarters"]:
+        bad.append("duration: %s quarters loaded, the attributes denote %s" % (F(tk, divs), exp["quarters"]))
+    if "ticks" in exp and tk != exp["ticks"]:
+        bad.append("duration: %d divisions loaded, @dur.ppq says %d" % (tk, exp["ticks"]))
+    if (None if tup is None else tuple(tup)) != exp["ratio"]:
+        bad.append("symbolic: tuplet ratio %r, enclosing tuplet %r" % (tup, exp["ratio"]))
+    if SYM_VALUE.get(ty) != exp["written"][0] and F(1) / F(SYM_VALUE.get(ty, 1)) != F(1) / exp["written"][0]:
+        bad.append("symbolic: type %r for @dur value %s" % (ty, exp["written"][0]))
+    if (dots or 0) != exp["written"][1]:
+        bad.append("symbolic: dots %r, written %d" % (dots, exp["written"][1]))
+    if staff != exp["staff"]:
+        bad.append("staff: %d loaded, encoded %d" % (staff, exp["staff"]))
+    return bad
+
+
+ATTR_ERRORS = ["nested_tuplets", "unknown_dur", "bad_dots", "unknown_accid", "empty_accid_child", "no_oct", "assertion"]
+
+
+def run_attr(ctx, n_docs, ok):
+    cases, info = [], []
+    loose = []
+    lcases, linfo = [], []
+    nv = 0
+    pi = 0
+    docs = []
+    for di in range(n_docs):
+        probes = []
+        for _ in range(10):
+            pi += 1
+            probes.append(gen_attr_probe(ctx.rng, pi))
+        docs.append((probes, ATTR_PPQ, None))
+    for ei in range(max(14, n_docs // 3)):
+        pi += 1
+        err = ATTR_ERRORS[ei % len(ATTR_ERRORS)]
+        if err == "assertion":   # one division per quarter: an eighth is half a division
+            pr = gen_attr_probe(ctx.rng, pi)
+            pr["chain"] = [c for c in pr["chain"] if c[0] != "tuplet"]
+            for nd in ([pr["chord"]] if pr["chord"] else pr["notes"]):
+                nd[1] = [kv for kv in nd[1] if kv[0] not in ("dur", "dots", "grace", "dur.ppq")] + [("dur", "8")]
+            pr["feat"] = ["error:assertion"]
+            pr["nfeat"] = [[] for _ in pr["notes"]]
+            pr["strict"] = [False for _ in pr["notes"]]
+            docs.append(([pr], 1, err))
+        else:
+            docs.append(([gen_attr_probe(ctx.rng, pi, error=err)], ATTR_PPQ, err))
+    for di, (probes, ppq, err) in enumerate(docs):
+        xs, idmap = [], {}
+        layer_els = []   # the elements with @dur of the layer in document order: (node, chain) -- the probes and the spaces between them
+        for pr in probes:
+            if err is None and ctx.rng.random() < 0.15:
+                sp = [("dur", ctx.rng.choice(["4", "8", "16"]))] + ([("dots", "1")] if ctx.rng.random() < 0.3 else [])
+                xs.append('<space xml:id="sp%d"%s/>' % (pr["pi"], "".join(' %s="%s"' % kv for kv in sp)))
+                layer_els.append((["space", sp, []], [], None))
+                ctx.count("attr:space_before_probe")
+            x, ids = attr_probe_xml(pr)
+            layer_els.append((pr["chord"] or pr["notes"][0], pr["chain"], ids[0]))
+            xs.append(x)
+            for k, i in enumerate(ids):
+                idmap[i] = (pr, k)
+        text = ATTR_HEAD % ppq + "".join(xs) + ATTR_TAIL
+        loader = "load_score" if di % 2 else "load_mei"
+        got, divs = observe_attr_doc(text, set(idmap), loader, "attr")
+        ctx.evaluations += 1
+        ctx.count("attr:documents")
+        if got is None:
+            ctx.count("attr:load_raised")
+            if err is None:
+                if nv < 4:
+                    ctx.violation("attribute probes: %s raised on a document of the supported subset: %s" % (loader, divs),
+                                  {"dir": "attr", "text": text, "loader": loader})
+                nv += 1
+                continue
+        if err is None and got is not None and all(i_ is None or i_ in got for _, _, i_ in layer_els):
+            rows = [(got[i_][9], got[i_][9] + got[i_][3]) for _, _, i_ in layer_els if i_ is not None]
+            els = ["(El %s [] %s)" % (c_node(nd), clist([c_node([t, a]) for t, a in list(ch) + ATTR_OUTER])) for nd, ch, _ in layer_els]
+            lcases.append(ctuple([cz(divs), clist(els), clist([ctuple([cz(a), cz(b)]) for a, b in rows])]))
+            linfo.append((text, loader))
+            ctx.count("attr:layers")
+        for i, (pr, k) in sorted(idmap.items()):
+            ob = None if got is None else got.get(i)
+            for f_ in (pr["feat"] if k == 0 else []) + pr["nfeat"][k]:
+                ctx.count("attr:%s" % f_)
+            ctx.count("attr:probes")
+            if got is not None and ob is None:
+                if nv < 4:
+                    ctx.violation("attribute probes: note %s is missing from the loaded score" % i, {"dir": "attr", "text": text, "loader": loader, "id": i})
+                nv += 1
+                continue
+            if not pr["strict"][k]:
+                # outside the supported subset (error classes, contradicting accidental places): the model follows the code
+                # there too, the agreement is recorded but not judged
+                ctx.count("attr:not_judged(outside_subset)")
+                loose.append(c_attr_case(pr, k, divs if divs is not None and got is not None else ppq, ob))
+                continue
+            if ob is not None:
+                bad = attr_oracle(pr, k, divs, ob)
+                if bad:
+                    if nv < 4:
+                        ctx.violation("MEI note %s loaded by %s differs from what its attributes denote [%s]: %s"
+                                      % (i, loader, bad[0].split(":")[0], "; ".join(bad)[:400]),
+                                      {"dir": "attr", "text": text, "loader": loader, "id": i, "loaded": ob})
+                    nv += 1
+                ctx.nontrivial("attr:" + attr_probe_xml(dict(pr, pi=0))[0])
+            cases.append(c_attr_case(pr, k, divs if divs is not None and got is not None else ppq, ob))
+            info.append((text, loader, i, ob))
+    if ok and cases:
+        fa = ctx.coq_failing("attr", "From PV Require Import Model.C19 Model.C19_attr.", "", cases, "check_attr", shard=150,
+                             ty="Z * Z * option elem * elem * option decoded")
+        ctx.obligation("correspondence: Model.C19_attr.handle_note (written value, dots, the tuplet among the ancestors, tick duration by "
+                       "@grace / @dur.ppq / the formula over the reflected tables, @pname / @oct / accidental by place, staff by "
+                       "note / chord / enclosing staff, grace type; None = the loader raises) = the note load_mei returns, on %d probed "
+                       "MEI notes" % len(cases), not fa, [info[i][2:] for i in fa[:5]])
+        for i in fa[:3]:
+            ctx.violation("Coq model of the MEI attribute decoding and the loaded note %s disagree (model drift or loader change): loaded %r"
+                          % (info[i][2], info[i][3]), {"dir": "attr", "text": info[i][0], "loader": info[i][1], "id": info[i][2], "loaded": info[i][3]})
+    if ok and lcases:
+        fl_ = ctx.coq_failing("attrlayer", "From PV Require Import Model.C19 Model.C19_mei Model.C19_attr.", "", lcases, "check_attr_layer", shard=14,
+                              ty="Z * list elem * list (Z * Z)")
+        ctx.obligation("correspondence: Model.C19_attr.layer_run_attr (position from the order, durations by _duration_info on the attributes, a "
+                       "space only moves) and, on layers of whole-number values, Model.C19_mei.layer_run on mels_of = (start, end) of every "
+                       "probed note / chord, on %d probe layers" % len(lcases), not fl_, fl_[:5])
+        for i in fl_[:3]:
+            ctx.violation("Coq model of a layer of MEI elements (attribute level) and the loaded start / end divisions disagree (model drift "
+                          "or loader change)", {"dir": "attr", "text": linfo[i][0], "loader": linfo[i][1]})
+    if ok and loose:
+        try:
+            fl = ctx.coq_failing("attrx", "From PV Require Import Model.C19 Model.C19_attr.", "", loose, "check_attr", shard=150,
+                                 ty="Z * Z * option elem * elem * option decoded")
+            ctx.count("attr:outside_subset_model_agrees", len(loose) - len(fl))
+            ctx.count("attr:outside_subset_model_differs", len(fl))
+        except RuntimeError:
+            ctx.count("attr:outside_subset_not_evaluated", len(loose))
+    ctx.log("attribute probes: %d notes judged, %d outside the supported subset, in %d documents" % (len(cases), len(loose), len(docs)))
+
+
 def coptz(x):
     return "(@None Z)" if x is None else "(Some %s)" % cz(int(x))
 
@@ -3537,6 +3937,14 @@ def replay(obj):
         print("---- expected (denotation) vs loaded:", "agree" if not bad else "")
         for b in bad:
             print("   MISMATCH [%s] %s" % b)
+    elif r.get("dir") == "attr":
+        print("---- MEI document:\n" + r["text"])
+        import re as _re
+        ids = set(_re.findall(r'<note xml:id="([^"]+)"', r["text"]))
+        got, divs = observe_attr_doc(r["text"], ids, r.get("loader", "load_mei"), "attr_replay")
+        print("---- loaded (id: step, octave, alter, ticks, type, dots, (actual, normal), staff, grace type); divisions / error:", divs)
+        for i in sorted(got or {}):
+            print("   ", i, got[i])
     elif r.get("dir") == "export":
         res = export_roundtrip(r["doc"], r["fmt"])
         print("---- export round trip:", res[0])
